@@ -1002,7 +1002,13 @@ def check_country_inputs(ctx, rows):
             if not wire.close(got, want, 1e-12, 0.0):
                 ctx.violation("baseline-not-from-its-column:" + const, "%s: %s = %r, the shipped table has %s x %g = %r" % (iso, const, got, col, fac, want),
                               {"country": iso, "constant": const, "column": col})
-        ctx.case(("country-inputs", iso), nontrivial=True, sample={"country": iso, "constants_checked": len(COLUMN_OF_CONSTANT)})
+        stocks = c.get("END_OF_MONTH_STOCKS") or {}
+        for mon in ["JAN", "FEB", "MAR", "APR", "MAY", "JUN", "JUL", "AUG", "SEP", "OCT", "NOV", "DEC"]:
+            col = "stocks_kcals_" + mon.lower()
+            if mon in stocks and col in row and not wire.close(float(stocks[mon]), float(row[col]), 1e-12, 0.0):
+                ctx.violation("baseline-not-from-its-column:END_OF_MONTH_STOCKS", "%s: END_OF_MONTH_STOCKS[%s] = %r, the shipped table has %s = %r" % (
+                    iso, mon, float(stocks[mon]), col, float(row[col])), {"country": iso, "constant": "END_OF_MONTH_STOCKS", "month": mon, "column": col})
+        ctx.case(("country-inputs", iso), nontrivial=True, sample={"country": iso, "constants_checked": len(COLUMN_OF_CONSTANT) + 12})
     ctx.count("country-input-rows", len(rows))
     # (b) through the driver, the three-round run replaced by a recorder
     seen = {}
@@ -1012,26 +1018,34 @@ def check_country_inputs(ctx, rows):
         seen[country_data["iso3"]] = country_data.copy()
         return (1.0, "recorded", ("result-of", country_data["iso3"]))
     ScenarioRunnerNoTrade.run_optimizer_for_country = rec
+    # once with the plain option set and once carrying every optional numeric override (none of them names a column of the table: the row stays the table's)
+    with_overrides = dict(BASE_OPTION, CROP_PRODUCTION_MULTIPLIER=0.8, GRASSES_PRODUCTION_MULTIPLIER=1.7, RATIO_STOCKS_UNTOUCHED=0.3,
+                          MINIMUM_PERCENT_FED_BEFORE_NONHUMAN_CONSUMPTION_ALLOWED=50, meat_cattle_head=1234567)
+    seen_all = []
     try:
-        with ctx.quiet():
-            ScenarioRunnerNoTrade().run_model_no_trade(title="verif_rows", create_pptx_with_all_countries=False, show_country_figures=False, show_map_figures=False,
-                                                       add_map_slide_to_pptx=False, scenario_option=dict(BASE_OPTION), countries_list=[], return_results=True)
+        for optset in (dict(BASE_OPTION), with_overrides):
+            seen.clear()
+            with ctx.quiet():
+                ScenarioRunnerNoTrade().run_model_no_trade(title="verif_rows", create_pptx_with_all_countries=False, show_country_figures=False, show_map_figures=False,
+                                                           add_map_slide_to_pptx=False, scenario_option=dict(optset), countries_list=[], return_results=True)
+            seen_all.append(dict(seen))
     finally:
         ScenarioRunnerNoTrade.run_optimizer_for_country = orig
     table = {iso_of(r): r for r in country_rows(ctx)}
-    for iso, got in seen.items():
-        want = table.get(iso)
-        if want is None:
-            continue
-        for col in want.index:
-            a, b = got.get(col), want[col]
-            same = (a == b) or (isinstance(a, float) and isinstance(b, float) and math.isnan(a) and math.isnan(b))
-            if not same:
-                # the one documented repair: a crop reduction a rounding error below -100 % is set to -100 %
-                repaired = str(col).startswith("crop_reduction_year") and isinstance(b, (int, float)) and -1 - 1e-8 < float(b) < -1 and float(a) == -1.0
-                if repaired:
-                    ctx.count("country-row:crop-reduction-rounding-repaired")
-                    continue
-                ctx.violation("country-row-altered:" + str(col), "%s: the driver hands the scenario setters %s = %r, the shipped table has %r" % (iso, col, a, b),
-                              {"country": iso, "column": str(col)})
-    ctx.count("country-rows-through-the-driver", len(seen))
+    for which, seen_ in enumerate(seen_all):
+      for iso, got in seen_.items():
+          want = table.get(iso)
+          if want is None:
+              continue
+          for col in want.index:
+              a, b = got.get(col), want[col]
+              same = (a == b) or (isinstance(a, float) and isinstance(b, float) and math.isnan(a) and math.isnan(b))
+              if not same:
+                  # the one documented repair: a crop reduction a rounding error below -100 % is set to -100 %
+                  repaired = str(col).startswith("crop_reduction_year") and isinstance(b, (int, float)) and -1 - 1e-8 < float(b) < -1 and float(a) == -1.0
+                  if repaired:
+                      ctx.count("country-row:crop-reduction-rounding-repaired")
+                      continue
+                  ctx.violation("country-row-altered:" + str(col), "%s: the driver hands the scenario setters %s = %r, the shipped table has %r" % (iso, col, a, b),
+                                {"country": iso, "column": str(col), "with_optional_overrides": bool(which)})
+    ctx.count("country-rows-through-the-driver", sum(len(x) for x in seen_all))
